@@ -222,6 +222,7 @@ def run(R, tier, seed, driver_ok):
             if np.abs(got - want).max() > tol * scale:
                 R.violation(f'RCA/{tag}', f'RCA (chunklets of sizes {sorted(sizes.tolist())}): learned distances change under {tag} (max relative deviation {np.abs(got - want).max() / scale:.3g})', case)
     large_itml_probe(R, rng)
+    singular_covariance_probe(R, rng, 6 if tier == 'quick' else 40)
     if driver_ok and lines:
         outs = lean_run(lines)
         for i, mt in enumerate(meta):
@@ -231,6 +232,47 @@ def run(R, tier, seed, driver_ok):
             if a is None or b is None or np.abs(a - b).max() > 1e-12 * max(np.abs(a).max(), 1e-300):
                 R.broken('correspondence:C19:cov-translate', 'the model covariance changes under a dyadic translation', {'line': i})
         R.extra['traces_validated_against_impl'] = len(lines)
+
+
+def singular_covariance_probe(R, rng, reps):
+    """Covariance (and MMC started from the covariance) on data whose covariance is singular among non-constant features — a
+    feature that is a combination of the others, or no more samples than features: the Moore–Penrose inverse of QᵀCQ is
+    Qᵀ C⁺ Q, so the learned matrix still turns with the data (and follows the units of the data)"""
+    from metric_learn import Covariance, MMC
+    for rep in range(reps):
+        d = int(rng.randint(3, 6))
+        if rep % 2 == 0:
+            Z = np.round(rng.randn(4 * d, d - 1) * 8) / 4.0 * (1 + np.arange(d - 1))
+            X = np.hstack([Z, Z.dot(np.round(rng.randn(d - 1, 1) * 2) / 2.0 + 0.5)])          # last feature: a combination of the others
+            kind = 'dependent-feature'
+        else:
+            X = np.round(rng.randn(d - 1, d) * 8) / 4.0 * (1 + np.arange(d)); kind = 'fewer-samples-than-features'
+        Q = np.linalg.qr(rng.randn(d, d))[0]
+        with warnings.catch_warnings():
+            warnings.simplefilter('ignore')
+            M0 = Covariance().fit(X).get_mahalanobis_matrix(); M2 = Covariance().fit(X.dot(Q)).get_mahalanobis_matrix()
+            M3 = Covariance().fit(X * 4.0).get_mahalanobis_matrix()
+        case = {'est': 'Covariance', 'relation': 'rotation', 'X': X, 'Q': Q, 'note': f'singular covariance ({kind})'}
+        R.case(('c19-singular-cov', kind, X.tobytes().hex()[:40]), True, sample={'est': 'Covariance', 'relation': 'rotation', 'kind': kind, 'd': d}, branch='singular-covariance-' + kind)
+        if not (np.all(np.isfinite(M0)) and np.all(np.isfinite(M2))):
+            R.violation('Covariance/rotation', f'Covariance on data with a singular covariance ({kind}) is not finite', case); continue
+        if rel(Q.T.dot(M0).dot(Q), M2) > 1e-6:
+            R.violation('Covariance/rotation', f'Covariance, singular covariance ({kind}): M learned on rotated data differs from QᵀMQ by {rel(Q.T.dot(M0).dot(Q), M2):.3g} (relative)', case)
+        if rel(M0 / 16.0, M3) > 1e-9:
+            R.violation('Covariance/scaling', f'Covariance, singular covariance ({kind}): scaling the data by 4 does not scale M by 1/16 ({rel(M0 / 16.0, M3):.3g})', dict(case, relation='scaling'))
+        if kind == 'dependent-feature':
+            idx = rng.randint(0, len(X), size=(12, 2)); idx = idx[idx[:, 0] != idx[:, 1]]
+            yy = np.where(np.arange(len(idx)) % 2 == 0, 1, -1)
+            try:
+                with warnings.catch_warnings():
+                    warnings.simplefilter('ignore')
+                    A0 = MMC(init='covariance', max_iter=0).fit(X[idx], yy).get_mahalanobis_matrix()
+                    A2 = MMC(init='covariance', max_iter=0).fit(X.dot(Q)[idx], yy).get_mahalanobis_matrix()
+                R.case(('c19-singular-cov-mmc', X.tobytes().hex()[:40]), True, branch='singular-covariance-mmc-init')
+                if rel(Q.T.dot(A0).dot(Q), A2) > 1e-6:
+                    R.violation('MMC/rotation', f"MMC(init='covariance') on pairs whose points have a singular covariance: the initial matrix on rotated data differs from QᵀMQ by {rel(Q.T.dot(A0).dot(Q), A2):.3g}", dict(case, est='MMC', pairs=idx))
+            except Exception as e:
+                R.count(f'singular-covariance-mmc-init: fit raised {type(e).__name__}')
 
 
 def large_itml_probe(R, rng):
